@@ -186,6 +186,11 @@ func (p *PDU) RespReadBits() ([]bool, error) {
 	}
 
 	count := p.Data[0]
+
+	if len(p.Data) < 1+(int(count)+7)/8 {
+		return []bool{}, errors.New("RespReadBits not enough data")
+	}
+
 	ret := make([]bool, count)
 	byteIndex := 0
 	bitIndex := uint(0)
